@@ -597,6 +597,16 @@ func toUpstreamMetadataProto(in *message.UpstreamMetadata) (*autogen.UpstreamMet
 }
 
 func ToBaseTimeProto(v *message.BaseTime) *autogen.BaseTime {
+	if v.BaseTime.IsZero() {
+		// UnixNano of the zero time is undefined (it decoded as a date in 1754): send 0 like ServerTime does
+		return &autogen.BaseTime{
+			SessionId:   v.SessionID,
+			Name:        v.Name,
+			Priority:    uint32(v.Priority),
+			ElapsedTime: uint64(v.ElapsedTime),
+			BaseTime:    0,
+		}
+	}
 	return &autogen.BaseTime{
 		SessionId:   v.SessionID,
 		Name:        v.Name,
